@@ -185,5 +185,73 @@ class FilePart(Part):
         return res
 
 
+class LongRun(Part):
+    name = "dump_after_a_large_run"
+    desc = "one large run per host-bit count (horizon): thousands of scattered addresses of both families through main -a -d; every replaced address has its line, no duplicates, pairs agree with a fresh instance"
+
+    def __init__(self, tier, seed):
+        self.tier, self.seed = tier, seed
+
+    def cases(self):
+        n4, n6 = (16000, 3000) if self.tier == "quick" else (60000, 12000)
+        return [{"B": B, "n4": n4, "n6": n6} for B in (0, 8)]
+
+    def run(self, cfg):
+        from netconan.netconan import main
+
+        res = Res()
+        root = seams.scratch_dir("c17l")
+        try:
+            a4 = [a for a in ipdom.scattered(self.seed, 32, cfg["n4"]) if not refs.is_mask32(a)]
+            a6 = list(ipdom.scattered(self.seed + 1, 128, cfg["n6"]))
+            files = {"v4.cfg": "".join("peer %s\n" % refs.v4_text(a) for a in a4),
+                     "v6.cfg": "".join("peer %s\n" % refs.v6_text(a) for a in a6),
+                     "z-late.cfg": "peer 11.22.33.44\npeer 2001:db8::77\n"}
+            seams.write_tree(os.path.join(root, "in"), files)
+            with seams.capture_logs():
+                main(["-a", "-s", "saltForTest", "--preserve-host-bits", str(cfg["B"]), "-i", os.path.join(root, "in"),
+                      "-o", os.path.join(root, "out"), "-d", os.path.join(root, "map.txt")])
+            mapping = {}
+            with open(os.path.join(root, "map.txt")) as f:
+                for ln in f:
+                    p = ln.rstrip("\n").split("\t")
+                    a, b = ipaddress.ip_address(p[0]), ipaddress.ip_address(p[1])
+                    if a in mapping:
+                        res.violation("dump-duplicate-original|large-run", "original %s twice" % a, cfg)
+                        break
+                    mapping[a] = b
+            out = seams.read_tree(os.path.join(root, "out"))
+            fresh4 = ipdom.make_v4(["md5", "saltForTest"], cfg["B"], None, None)
+            fresh6 = ipdom.make_v6(["md5", "saltForTest"], cfg["B"])
+            missing = 0
+            for name, addrs, cls, fresh in (("v4.cfg", a4, ipaddress.IPv4Address, fresh4), ("v6.cfg", a6, ipaddress.IPv6Address, fresh6),
+                                            ("z-late.cfg", None, None, None)):
+                got = (out.get(name) or b"").decode().splitlines()
+                src = files[name].splitlines()
+                if len(got) != len(src):
+                    res.violation("file-line-count|large-run", "%s: %d vs %d" % (name, len(got), len(src)), cfg)
+                    continue
+                for i, (s_, g_) in enumerate(zip(src, got)):
+                    res.evals += 1
+                    a, u = ipaddress.ip_address(s_.split()[1]), ipaddress.ip_address(g_.split()[1])
+                    if mapping.get(a) != u:
+                        missing += 1
+                        if missing == 1:
+                            res.violation("dump-misses-or-contradicts-replaced-address|large-run|%d" % a.version,
+                                          "host bits %d: line %d of %s: %s was written as %s, the map says %r (%d map lines)" % (
+                                              cfg["B"], i, name, a, u, mapping.get(a), len(mapping)), cfg)
+                    elif i % 257 == 0 and fresh is not None and fresh.anonymize(int(a)) != int(u):
+                        res.violation("dump-pair-disagrees-with-mapping|large-run", "%s -> %s" % (a, u), cfg)
+            res.count("max_map_lines", len(mapping))
+            res.states = 1
+            res.transitions = len(a4) + len(a6)
+            res.nt((cfg["B"],))
+            res.out(len(mapping))
+            res.samples.append({"cfg": cfg, "map_lines": len(mapping), "missing": missing})
+        finally:
+            shutil.rmtree(root, ignore_errors=True)
+        return res
+
+
 def parts(tier, seed):
-    return [GraphPart(tier, seed), FilePart(tier, seed)]
+    return [GraphPart(tier, seed), FilePart(tier, seed), LongRun(tier, seed)]
